@@ -24,11 +24,17 @@ def run(tier, seed):
         for t, v in zip(tagged, verdicts):
             v["id"] = t["id"]
         r.add_cases(tagged, verdicts, nontrivial=lc.nontrivial)
+    # impl -> spec: the interpreter's own event trace of every case must be a behaviour of spec/Vm.tla
+    # (frames returned to where they were pushed, continuations restore what was captured, unwinding stops
+    # at the frame that carries the handler, nothing left on the stacks of an idle engine)
+    vlib.vm_trace_check(r, cases, work, "c08")
     for env in (None, {"STEEL_JIT": "false"}):
         lc.replay_modules(vlib, cases, work, r, "c08.mod" + ("n" if env else ""), env=env, nontriv=lc.nontrivial_mod)
     r.cov["rule"] = ("param family (parameter objects / parameterize as the R7RS reference implementation over dynamic-wind: value expression with and without effects x read / nest / escape / raise / re-entry), delim family (reset/shift defined exactly as scheme/stdlib.scm does, on call/cc and a meta-continuation cell: contexts x uses of k x dynamic-wind nesting) and control family of LangFam.tla (capture context x dynamic-wind nesting x invocation; escapes from nested calls, "
                      "map/foldl callbacks and handlers; errors through winds and handlers) and every builder program containing call/cc "
-                     "or with-handler, run on the Lang.tla CEK machine and replayed under JIT on and off, as top-level units and as module files")
+                     "or with-handler, run on the Lang.tla CEK machine and replayed under JIT on and off, as top-level units and as module files; "
+                     "the interpreter's event trace of every case (dispatch steps, instalments, capture / invoke, handler frames, unwinding) "
+                     "validated by TLC against spec/Vm.tla through Trace_Vm.tla")
     r.cov["exhaustive"] = True
     return r.finish()
 
